@@ -151,6 +151,18 @@ theorem C17_others_irrelevant (fs : FS) (start stop : Dir) :
 
 /-! ## the judge accepts the model -/
 
+/-- **Location independence.**  If discovery from `start` finds the spokfile of `d`, then discovery from EVERY directory between
+    `d` and `start` finds the same one: where inside the project the user stands does not matter. -/
+theorem C17_between (fs : FS) (start stop d d' : Dir) (h : find fs start stop = .found d)
+    (h1 : d <+: d') (h2 : d' <+: start) : find fs d' stop = .found d := by
+  obtain ⟨_, ha, hs, hn⟩ := (C17_found_iff fs start stop d).1 h
+  exact (C17_found_iff fs d' stop d).2 ⟨h1, ha, hs, fun d'' hd hl => hn d'' (hd.trans h2) hl⟩
+
+/-- … in particular discovery is stable: started in the directory it found, it finds that directory again -/
+theorem C17_found_stable (fs : FS) (start stop d : Dir) (h : find fs start stop = .found d) :
+    find fs d stop = .found d :=
+  C17_between fs start stop d d h (List.prefix_refl d) ((C17_found_iff fs start stop d).1 h).1
+
 theorem judge_accepts_model (fs : FS) (start stop : Dir) :
     c17 fs start stop (FindObs.ofResult (find fs start stop)) = true := by
   simp only [c17, decide_eq_true_eq]
@@ -179,6 +191,9 @@ def fs1 : FS := fun d =>
 example : NAME = "spokfile" := by decide
 -- other entries sort before the spokfile; a directory called spokfile on the way is not taken
 example : find fs1 ["p", "q", "r"] ["p"] = .found ["p"] := by decide
+-- `C17_between` applies to that search: from the directory in between the same spokfile is found
+example : find fs1 ["p", "q"] ["p"] = .found ["p"] :=
+  C17_between fs1 ["p", "q", "r"] ["p"] ["p"] ["p", "q"] (by decide) (by decide) (by decide)
 -- the stop directory itself is searched, wholly
 example : find fs1 ["p"] ["p"] = .found ["p"] := by decide
 -- stop below the spokfile: never look above stop
